@@ -22,7 +22,7 @@ func init() {
 		ID:        "C10",
 		Level:     "exploration",
 		Technique: "bounded exhaustive configuration enumeration (table x creation path x wrapper nesting x target format x entry point) on the real code; differential oracle: every route to the same content must give the bytes of the canonical route",
-		Rule: "14 tables (regular, ragged, zero-cell rows, separators first/last/consecutive, multi-line and wide texts, no header, empty header, header only, post-attach cell, alignment property set) x 16 creation paths (tabular.New, the five sub-package New, auto.New of every listed style) " +
+		Rule: "15 tables (regular, ragged, zero-cell rows, separators first/last/consecutive, multi-line and wide texts, no header, empty header, header only, a table whose JSON rendering fails half-way, post-attach cell, alignment property set) x 16 creation paths (tabular.New, the five sub-package New, auto.New of every listed style) " +
 			"x every nesting of <=2 (thorough <=3) wrappers from {csv, html, json, markdown, texttable, auto} x 6 target formats (csv, json, markdown, html, text default, text utf8-light) x every existing entry point (package Render/RenderTo, Wrap(t).Render/RenderTo, auto.Render/RenderTo, and the created/outermost object's own Render/RenderTo when it is a renderer of the target format); " +
 			"non-trivial = a non-core creation path or a non-empty wrapper chain; distinct by (table, path, chain, target)",
 		Assumptions: []string{"html has no package-level Render/RenderTo: only entry points that exist are compared", "the canonical route is tabular.New() + X.Wrap(t).Render()"},
@@ -70,6 +70,7 @@ func c10Tables() []c10Table {
 		}},
 		{"hostile texts", func(t tabular.Table) { t.AddHeaders(`a"b`, "c|d"); t.AddRowItems("<x>", "q,r"); t.AddRowItems(nil, 5) }},
 		{"empty table", func(t tabular.Table) {}},
+		{"json fails half-way", func(t tabular.Table) { t.AddHeaders("h1", "h2"); t.AddRowItems("fine", 1); t.AddRowItems("bad", unencodable{}) }},
 		{"header shorter than rows", func(t tabular.Table) { t.AddHeaders("h1"); t.AddRowItems("a", "b") }},
 		{"detached row", func(t tabular.Table) {
 			t.AddHeaders("h1", "h2")
